@@ -6,6 +6,15 @@
 (*                         presence per parameter and the given outcomes of *)
 (*                         the matrix routine (environment's choice)        *)
 (*   SetHyper(g, key, v)   param_groups[g][key] := value #v between steps   *)
+(*   SetHyperAll(key, v)   the same for every group at once (a scheduler)   *)
+(*   Save                  ckpt := what distributed_state_dict carries (the *)
+(*                         DURABLE fields of every group)                   *)
+(*   Load                  load_distributed_state_dict(ckpt) into the LIVE  *)
+(*                         optimizer: durable fields are overwritten in     *)
+(*                         place, every volatile field (selector caches,    *)
+(*                         masked lists, failure counters) keeps its live   *)
+(*                         value - a rollback, or a reload of the current   *)
+(*                         state; only when the constant Ckpt is TRUE       *)
 (* An exception in group g aborts the remaining groups of the same call.    *)
 (* `bad` accumulates the names of violated property clauses (StepChecks);   *)
 (* `hist` (only when Emit) is the behaviour as data, printed as JSON for    *)
@@ -16,9 +25,11 @@ CONSTANTS Cfg,          \* Seq of group configs (see ShampooStep)
           MaxCalls,     \* bound on the number of Step / SetHyper actions
           FaultKinds,   \* subset of {"fail", "nan", "inf"}
           HyperMoves,   \* set of <<group, key, value index>> that SetHyper may perform
-          Emit          \* BOOLEAN: carry hist and print it when the bound is reached
-VARIABLES st, raised, nCalls, bad, hist
-vars == <<st, raised, nCalls, bad, hist>>
+          Emit,         \* BOOLEAN: carry hist and print it when the bound is reached
+          Ckpt          \* BOOLEAN: Save / Load are part of the public surface explored
+VARIABLES st, raised, nCalls, bad, hist, ckpt
+vars == <<st, raised, nCalls, bad, hist, ckpt>>
+NoCkpt == <<>>
 
 NG == Len(Cfg)
 Groups == 1..NG
@@ -57,7 +68,7 @@ RunGroups(gi, sts, present, outc, obs, acc) ==
           ELSE RunGroups(gi + 1, sts2, present, outc, obs2, acc \cup b)
 
 Init == /\ st = [gi \in Groups |-> InitG(Cfg[gi])]
-        /\ raised = "none" /\ nCalls = 0 /\ bad = {} /\ hist = <<>>
+        /\ raised = "none" /\ nCalls = 0 /\ bad = {} /\ hist = <<>> /\ ckpt = NoCkpt
 
 Step(present, outc) ==
   /\ nCalls < MaxCalls
@@ -68,34 +79,63 @@ Step(present, outc) ==
                                               present |-> [gi \in Groups |-> [p \in 1..Cfg[gi].np |-> p \in present[gi]]],
                                               outc |-> outc, obs |-> r.obs])
                    ELSE hist
-  /\ nCalls' = nCalls + 1
+  /\ nCalls' = nCalls + 1 /\ UNCHANGED ckpt
 
 SetHyper(gi, key, v) ==
   /\ nCalls < MaxCalls /\ raised \notin {"value", "len"}
   /\ st[gi].hy[key] # v
   /\ (key = "mom" /\ v > 0 => Cfg[gi].hasMom) /\ (key = "b1" /\ v > 0 => Cfg[gi].hasFilt)
   /\ st' = [st EXCEPT ![gi].hy[key] = v]
-  /\ raised' = "none" /\ nCalls' = nCalls + 1 /\ UNCHANGED bad
+  /\ raised' = "none" /\ nCalls' = nCalls + 1 /\ UNCHANGED <<bad, ckpt>>
   /\ hist' = IF Emit THEN Append(hist, [ev |-> "SetHyper", g |-> gi, key |-> key, v |-> v]) ELSE hist
+
+\* a scheduler: the same key of EVERY group is set to the same value between two steps (move <<0, key, v>>); the history
+\* records it as one SetHyper event per group
+SetHyperAll(key, v) ==
+  /\ nCalls < MaxCalls /\ raised \notin {"value", "len"}
+  /\ \E gi \in Groups : st[gi].hy[key] # v
+  /\ \A gi \in Groups : (key = "mom" /\ v > 0 => Cfg[gi].hasMom) /\ (key = "b1" /\ v > 0 => Cfg[gi].hasFilt)
+  /\ st' = [gi \in Groups |-> [st[gi] EXCEPT !.hy[key] = v]]
+  /\ raised' = "none" /\ nCalls' = nCalls + 1 /\ UNCHANGED <<bad, ckpt>>
+  /\ hist' = IF Emit THEN hist \o [gi \in Groups |-> [ev |-> "SetHyper", g |-> gi, key |-> key, v |-> v]] ELSE hist
+
+\* checkpointing on the live object (only the latest checkpoint is kept; saving twice in a row adds nothing)
+Save ==
+  /\ Ckpt /\ nCalls < MaxCalls /\ raised \notin {"value", "len"}
+  /\ ckpt # [gi \in Groups |-> Durable(st[gi])]
+  /\ ckpt' = [gi \in Groups |-> Durable(st[gi])]
+  /\ raised' = "none" /\ nCalls' = nCalls + 1 /\ UNCHANGED <<st, bad>>
+  /\ hist' = IF Emit THEN Append(hist, [ev |-> "Save"]) ELSE hist
+LoadInto(s, c) == [f \in DOMAIN s |-> IF f \in DurableFields THEN c[f] ELSE s[f]]
+Load ==
+  /\ Ckpt /\ nCalls < MaxCalls /\ raised \notin {"value", "len"}
+  /\ ckpt # NoCkpt
+  /\ st' = [gi \in Groups |-> LoadInto(st[gi], ckpt[gi])]
+  /\ raised' = "none" /\ nCalls' = nCalls + 1 /\ UNCHANGED <<bad, ckpt>>
+  /\ hist' = IF Emit THEN Append(hist, [ev |-> "Load"]) ELSE hist
 
 Next ==
   \/ \E present \in FnSet(Groups, [gi \in Groups |-> SUBSET ParamsOf(gi)]) :
        \E outc \in FnSet(Groups, [gi \in Groups |-> FnSet(BlocksOf(Cfg[gi]), OutcChoices(gi, present[gi]))]) :
           Step(present, outc)
-  \/ \E m \in HyperMoves : SetHyper(m[1], m[2], m[3])
+  \/ \E m \in HyperMoves : IF m[1] = 0 THEN SetHyperAll(m[2], m[3]) ELSE SetHyper(m[1], m[2], m[3])
+  \/ Save \/ Load
 Spec == Init /\ [][Next]_vars
 
-View == <<st, raised, nCalls, bad>>
+View == <<st, raised, nCalls, bad, ckpt>>
 \* Exhaustive configurations: counters that only ever enter the checks as (post - pre) differences are dropped
 \* from the fingerprint, root/basis ages are reduced to "exists"; the future behaviour does not depend on them.
 LeanG(gi) == LET s == st[gi] IN
   <<s.step, s.dPrev, s.lsel, s.prev, s.dMP, s.mP, s.mK, s.mG, s.mF, s.mM, s.lCnt, s.mCnt, s.aliased, s.hy,
     [b \in BlocksOf(Cfg[gi]) |-> [k \in 1..Cfg[gi].nf[b] |-> s.rootAt[b][k] > 0]],
     s.kSrc, s.fSrc, s.mSrc, s.gSrc, s.pSrc, s.poison, s.failRun>>
-ViewLean == <<[gi \in Groups |-> LeanG(gi)], raised, nCalls, bad>>
+ViewLean == <<[gi \in Groups |-> LeanG(gi)], raised, nCalls, bad, ckpt>>
 
 NoViolation == bad = {}
 \* group step counters never exceed the number of calls; masked lists always name local blocks
+\* a loaded state is a state the optimizer has been in: every step property keeps holding after a rollback (checked through `bad`),
+\* and the checkpoint never runs ahead of the calls made
+CkptOK == ckpt = NoCkpt \/ \A gi \in Groups : ckpt[gi].step <= nCalls
 TypeOK == \A gi \in Groups : /\ st[gi].step <= nCalls
                              /\ RangeS(st[gi].mK) \subseteq BlocksOf(Cfg[gi])
                              /\ Len(st[gi].lCnt) = NL(Cfg[gi])
